@@ -37,10 +37,23 @@ def gateClosing : Bool := true
 
 /-- A synchronous connect failure closes the socket and stops the connection's
     workers (false on the pinned tree, which only removed the table entries). -/
-def connectFailCloses : Bool := false
+def connectFailCloses : Bool := true
 
 /-- The CER/CEA timeout runs from the establishment of the transport (true since
     the `fix:` commit; the pinned tree measured from the last read). -/
 def ceTimeoutFromEstablished : Bool := true
+
+/-- `remove_peer_connection` only resets the peer (connection, disconnect
+    reason/time, pending answers) when the removed connection is the peer's
+    current one (true since the `fix:` commit). -/
+def removeOnlyOwn : Bool := true
+
+/-- `remove_peer_connection` also drops the connection from
+    `_half_ready_connections` and `socket_peers` (true since the `fix:` commit). -/
+def removeCleansTables : Bool := true
+
+/-- A connection refused by `_add_peer_connection` has its workers stopped
+    (true since the `fix:` commit). -/
+def rejectStopsWorkers : Bool := true
 
 end DV.Config
